@@ -33,13 +33,13 @@ VARIABLES l,        \* index of the next record
           bt,       \* Seq of [puts, dels]: bt[b] = collapsed ops of batch b
           io,       \* introduction order
           returned, cbs,
-          rec       \* the prefix length k chosen to explain the last Recovered (0..)
+          rec       \* batches that had returned when the last online copy began (CopyBegin)
 vars == <<l, safe, bt, io, returned, cbs, rec>>
 
 SetOf(seq) == { seq[i] : i \in DOMAIN seq }
 DocsOf(seq) == { <<seq[i][1], seq[i][2]>> : i \in DOMAIN seq }
 
-Init == l = 1 /\ safe = TRUE /\ bt = <<>> /\ io = <<>> /\ returned = {} /\ cbs = {} /\ rec = 0
+Init == l = 1 /\ safe = TRUE /\ bt = <<>> /\ io = <<>> /\ returned = {} /\ cbs = {} /\ rec = {}
 
 E == Trace[l]
 
@@ -47,7 +47,7 @@ Step ==
   /\ l <= Len(Trace)
   /\ l' = l + 1
   /\ CASE E.ev = "Reset" ->
-            /\ safe' = E.safe /\ bt' = <<>> /\ io' = <<>> /\ returned' = {} /\ cbs' = {} /\ rec' = 0
+            /\ safe' = E.safe /\ bt' = <<>> /\ io' = <<>> /\ returned' = {} /\ cbs' = {} /\ rec' = {}
        [] E.ev = "Submit" ->
             /\ E.b = Len(bt) + 1     \* batches are numbered in submission order
             /\ bt' = Append(bt, [puts |-> SetOf(E.puts), dels |-> SetOf(E.dels)])
@@ -57,6 +57,7 @@ Step ==
             /\ UNCHANGED <<safe, bt, returned, cbs, rec>>
        [] E.ev = "Return" -> returned' = returned \cup {E.b} /\ UNCHANGED <<safe, bt, io, cbs, rec>>
        [] E.ev = "Callback" -> cbs' = cbs \cup {E.b} /\ UNCHANGED <<safe, bt, io, returned, rec>>
+       [] E.ev = "CopyBegin" -> rec' = returned /\ UNCHANGED <<safe, bt, io, returned, cbs>>
        [] OTHER -> UNCHANGED <<safe, bt, io, returned, cbs, rec>>
 
 Spec == Init /\ [][Step]_vars
@@ -65,7 +66,7 @@ Spec == Init /\ [][Step]_vars
 Ids == UNION { bt[b].puts \cup bt[b].dels : b \in 1..Len(bt) }
 Replay(k) == ReplayOf(bt, io, k)
 Prefix(k) == { io[i] : i \in 1..k }
-\* batches the property promises are durable
+\* batches the property promises are durable after a kill
 Durable == (IF safe THEN returned ELSE {}) \cup cbs
 
 \* prefix lengths that explain an observation
@@ -90,8 +91,28 @@ RecoveredIsPrefix == (IsRec /\ J.opened) => Ks(DocsOf(J.docs), J.seq) # {}
 \* C03: the prefix contains every batch acknowledged before the kill
 \* (returned in safe mode / persisted-callback fired), and at least the
 \* lower bound the harness knows (J.min, e.g. batches returned before a copy began)
+\* C14: an online copy contains every batch acknowledged (returned) before the
+\* copy began.  C13: after Rollback to a point the content is the state that
+\* point identifies by its internal value (J.point = its "seq").
+MustHave == CASE J.kind = "copy" -> rec
+              [] J.kind = "rollback" -> {}
+              [] OTHER -> Durable
 RecoveredHasAcked == (IsRec /\ J.opened) =>
-   \E k \in Ks(DocsOf(J.docs), J.seq) : Durable \subseteq Prefix(k) /\ k >= J.min
+   \E k \in Ks(DocsOf(J.docs), J.seq) : MustHave \subseteq Prefix(k) /\ k >= J.min
+RollbackExact == (IsRec /\ J.opened /\ J.kind = "rollback") => J.seq = J.point
+
+\* C13: the rollback points offered (newest first, identified by their
+\* internal "seq" values) are states the index really had, in order, include
+\* the most recent persisted state, and honour numSnapshotsToKeep
+IsPoints == l > 1 /\ J.ev = "Points"
+PosOf(b) == IF b = 0 THEN 0 ELSE CHOOSE i \in 1..Len(io) : io[i] = b
+PointsAreStates == IsPoints => \A i \in DOMAIN J.seqs : J.seqs[i] = 0 \/ \E j \in 1..Len(io) : io[j] = J.seqs[i]
+PointsOrdered == IsPoints => \A i, j \in DOMAIN J.seqs : i < j => PosOf(J.seqs[i]) >= PosOf(J.seqs[j])
+PointsIncludeNewest == (IsPoints /\ J.settled) => (Len(J.seqs) > 0 /\ PosOf(J.seqs[1]) = Len(io))
+PointsHonourKeep == (IsPoints /\ J.settled) => Len(J.seqs) <= J.keep
+\* the source of an online copy is unaffected: it still holds everything introduced
+IsSource == l > 1 /\ J.ev = "SourceAfter"
+SourceUnaffected == IsSource => (DocsOf(J.docs) = Replay(Len(io)) /\ J.seq = (IF Len(io) = 0 THEN 0 ELSE io[Len(io)]))
 
 \* the observation is self-consistent (C01 on the reopened index)
 RecoveredConsistent == (IsRec /\ J.opened) =>
